@@ -48,6 +48,12 @@ def main():
     with ThreadPoolExecutor(10) as ex:
         for res in ex.map(one, jobs):
             print(res[0], res[1], res[2], json.dumps(res[3])[:6000] if res[3] else '')
+    # the scratch copies had their own build / fact directories under .work (one set per slot): remove them
+    import glob
+    for s_ in range(10):
+        for d_ in glob.glob(os.path.join(VERIF, '.work', '*-eq%d' % s_)) + glob.glob(os.path.join(VERIF, '.work', 'facts', '*-eq%d' % s_)) + \
+                glob.glob(os.path.join(VERIF, '.work', '*-eq%d.lock' % s_)):
+            shutil.rmtree(d_, ignore_errors=True) if os.path.isdir(d_) else os.path.exists(d_) and os.remove(d_)
 
 
 if __name__ == '__main__':
